@@ -217,6 +217,11 @@ pub fn run(ctx: &Ctx, rep: &mut Report) {
                         continue;
                     }
                     for &(io, oo) in &offsets {
+                        // thorough: every offset pair for n <= 19 (covers every native parallel width twice over);
+                        // larger n only at the quick tier's five pairs
+                        if offsets.len() > 5 && n > 19 && ![(0, 0), (1, 1), (3, 8), (15, 15), (0, 7)].contains(&(io, oo)) {
+                            continue;
+                        }
                         if !shape.separate() && io != oo && !(io == 0) {
                             continue; // in-place shapes only use the output offset
                         }
